@@ -291,7 +291,10 @@ func DecodeAlstSampleGroupEntry(name string, length uint32, sr bits.SliceReader)
 		entry.SampleOffset[i] = sr.ReadUint32()
 	}
 
-	if uint64(length) <= entry.Size() {
+	if uint64(length) < entry.Size() || (uint64(length)-entry.Size())%4 != 0 {
+		return nil, fmt.Errorf("alst: given length %d does not match roll_count %d", length, entry.RollCount)
+	}
+	if uint64(length) == entry.Size() {
 		return entry, sr.AccError()
 	}
 	remaining := int(length-uint32(entry.Size())) / 4
